@@ -1,4 +1,4 @@
-module spike10
+module spike11
 
 go 1.23
 
